@@ -64,6 +64,33 @@ func c11HookWitnesses(r *Run) {
 				name+" is called from "+strings.Join(cs, ",")+": an opted-in operator can lose its value record on a path the AVS hook's audit does not know, and the hook then adds the nil value returned with the error (BeginBlock panic)")
 		}
 	}
+	// operator records are never deleted (premise of the audited `ops` site in AllocateTokensToValidator: the
+	// validator's operator address comes from the registry, so OperatorInfo cannot miss)
+	{
+		var deleters []string
+		n := 0
+		for _, v := range w.allViews() {
+			if w.relPkg(v.Obj.Pkg().Path()) != "x/operator/keeper" || v.Decl.Body == nil {
+				continue
+			}
+			usesPrefix := false
+			ast.Inspect(v.Decl.Body, func(n ast.Node) bool {
+				if sel, ok := n.(*ast.SelectorExpr); ok && sel.Sel.Name == "KeyPrefixOperatorInfo" {
+					usesPrefix = true
+				}
+				return true
+			})
+			if !usesPrefix {
+				continue
+			}
+			n++
+			if len(v.CallsNamed("Delete")) > 0 {
+				deleters = append(deleters, v.Obj.Name())
+			}
+		}
+		r.check(len(deleters) == 0 && n >= 3, "C11.R2w", "operator-record|never-deleted", "-", fmt.Sprintf("none of the %d functions that open the operator-info store deletes from it", n),
+			"operator records are deleted by "+strings.Join(deleters, ", ")+fmt.Sprintf(" (%d functions open the store)", n)+": a validator whose operator record is gone makes AllocateTokensToValidator dereference the nil info returned with the error (BeginBlock panic)")
+	}
 	// the delete-all arm of UpdateVotingPower
 	if v := w.View("x/operator/keeper", "Keeper.UpdateVotingPower"); v == nil {
 		r.bad("C11.R2w", "anchor|UpdateVotingPower", "-", "anchor", "not found")
